@@ -20,10 +20,12 @@ def construct(c):
 def main(tier, seed, t0):
     cases = RJ.c12_cases(tier)
     cases.append(RJ.big_enum_case(65535, PROP, 'reject'))
+    cases.append(RJ.big_enum_case(65536, PROP, 'reject'))          # one more than a 16-bit counter holds
     cases += RJ.mixed_c12(120 if tier == 'quick' else 1200, seed)
     if tier == 'thorough':
-        cases.append(RJ.big_enum_case(65536, PROP, 'reject'))
         cases.append(RJ.big_enum_case(70000, PROP, 'reject'))
+        cases.append(RJ.big_enum_case(131070, PROP, 'reject'))
+        cases.append(RJ.big_enum_case(131071, PROP, 'reject'))
     st, r = runner.stage_batch('c12-' + tier, cases)
     ctx = Ctx(PROP)
     ctx.programs = set(c['id'] for c in cases)
